@@ -156,6 +156,87 @@ def shape {Plan Feats : Type} (ud : UData) (mkPlan : Nat → Option Nat → Opti
     `enter()` before anything reads it). -/
 def observe (u : UBuf) : UBuf := { u with b := { u.b with flags := 0 }, shapingFailed := false }
 
+/-! ### the full field list of `hb_buffer_t`
+
+  One constructor per field of the Rust struct, in the order of the struct definition (buffer.rs).  `Field.name` is the
+  Rust identifier; the list of names is compared on every run with the field list parsed from the struct definition
+  (`Gen.Lifecycle.bufferFields`, theorem `C05_gen_buffer_fields`), so a field added to the struct leaves an obligation
+  open until it is modelled here, read by `read`, and classified by `keptByClear`. -/
+
+inductive Field where
+  | flags | cluster_level | invisible | not_found_variation_selector
+  | direction | script | language
+  | shaping_failed | successful | have_output | have_separate_output | have_positions
+  | idx | len | out_len | info | pos | context | context_len
+  | serial | scratch_flags | max_len | max_ops
+  deriving DecidableEq, Repr
+
+def Field.all : List Field :=
+  [.flags, .cluster_level, .invisible, .not_found_variation_selector, .direction, .script, .language,
+   .shaping_failed, .successful, .have_output, .have_separate_output, .have_positions,
+   .idx, .len, .out_len, .info, .pos, .context, .context_len, .serial, .scratch_flags, .max_len, .max_ops]
+
+def Field.name : Field → String
+  | .flags => "flags" | .cluster_level => "cluster_level" | .invisible => "invisible"
+  | .not_found_variation_selector => "not_found_variation_selector"
+  | .direction => "direction" | .script => "script" | .language => "language"
+  | .shaping_failed => "shaping_failed" | .successful => "successful" | .have_output => "have_output"
+  | .have_separate_output => "have_separate_output" | .have_positions => "have_positions"
+  | .idx => "idx" | .len => "len" | .out_len => "out_len" | .info => "info" | .pos => "pos"
+  | .context => "context" | .context_len => "context_len"
+  | .serial => "serial" | .scratch_flags => "scratch_flags" | .max_len => "max_len" | .max_ops => "max_ops"
+
+/-- the value of a field, as the model holds it -/
+inductive FVal where
+  | nat (n : Nat)
+  | int (i : Int)
+  | bool (b : Bool)
+  | onat (o : Option Nat)
+  | bytes (o : Option (List Nat))
+  | infos (l : List Info)
+  /-- `context`: the characters of both sides up to their lengths -/
+  | ctx (pre post : List Nat)
+  /-- `context_len` -/
+  | lens (pre post : Nat)
+  /-- `invisible`: no setter in the public api and no writer in the crate (`Gen.Lifecycle.invisibleWriters = 0`,
+      counted in the sources on every run); the model does not carry it -/
+  | unwritten
+  deriving DecidableEq, Repr
+
+/-- every field of `hb_buffer_t`, read off the model state -/
+def read (u : UBuf) : Field → FVal
+  | .flags => .nat u.b.flags
+  | .cluster_level => .nat u.b.level
+  | .invisible => .unwritten
+  | .not_found_variation_selector => .onat u.nfvs
+  | .direction => .nat u.dir
+  | .script => .onat u.script
+  | .language => .bytes u.lang
+  | .shaping_failed => .bool u.shapingFailed
+  | .successful => .bool u.b.successful
+  | .have_output => .bool u.b.haveOutput
+  | .have_separate_output => .bool u.b.sepOut
+  | .have_positions => .bool u.b.havePos
+  | .idx => .nat u.b.idx
+  | .len => .nat u.b.len
+  | .out_len => .nat u.b.outLen
+  | .info => .infos u.b.info
+  | .pos => .infos u.b.out
+  | .context => .ctx u.pre u.post
+  | .context_len => .lens u.pre.length u.post.length
+  | .serial => .nat u.b.serial
+  | .scratch_flags => .nat u.b.scratch
+  | .max_len => .nat u.b.maxLen
+  | .max_ops => .int u.b.maxOps
+
+/-- the fields `hb_buffer_t::clear` leaves alone: `flags` (caller-owned input), `invisible` (never written),
+    `shaping_failed` (overwritten by `enter()`), `max_len` / `max_ops` (restored by `leave()` on every way out of
+    `shape_with_plan`).  Compared on every run with what the compiled `clear()` does to a buffer whose every field was
+    made different from a fresh one (`Gen.Lifecycle.clearKeeps`, theorem `C05_gen_clear_keeps`). -/
+def Field.keptByClear : Field → Bool
+  | .flags | .invisible | .shaping_failed | .max_len | .max_ops => true
+  | _ => false
+
 /-! ### a shaping request (what harness `fill` does to a buffer) and histories -/
 
 structure Req where
